@@ -397,7 +397,12 @@ func ValidateCondition(column *ColumnSchema, function ConditionFunction, nativeV
 			NativeType(column).String(), nativeValue)
 	}
 
-	switch column.Type {
+	columnType := column.Type
+	if columnType == TypeEnum && column.TypeObj != nil && column.TypeObj.Key != nil {
+		// an enum column holds a single value of its key type
+		columnType = column.TypeObj.Key.Type
+	}
+	switch columnType {
 	case TypeSet, TypeMap, TypeBoolean, TypeString, TypeUUID:
 		switch function {
 		case ConditionEqual, ConditionNotEqual, ConditionIncludes, ConditionExcludes:
@@ -409,7 +414,7 @@ func ValidateCondition(column *ColumnSchema, function ConditionFunction, nativeV
 		// All functions are valid
 		return nil
 	default:
-		panic("Unsupported Type")
+		return fmt.Errorf("unsupported type %s for a condition", column.Type)
 	}
 }
 
